@@ -280,6 +280,17 @@ namespace vt
    template< typename T >
    inline constexpr int sel_of< T, std::void_t< decltype( T::sel ) > > = T::sel;
 
+   // must_if (C05): a rule type may carry  static constexpr const char* mi_message = "..."  (its message in the Errors
+   // class given to must_if) and  static constexpr bool mi_rof = ...  (its entry in Errors::raise_on_failure)
+   template< typename T, typename = void >
+   inline constexpr const char* mimsg_of = nullptr;
+   template< typename T >
+   inline constexpr const char* mimsg_of< T, std::void_t< decltype( T::mi_message ) > > = T::mi_message;
+   template< typename T, typename = void >
+   inline constexpr int mirof_of = -1;   // -1: no entry (Errs2 then answers false)
+   template< typename T >
+   inline constexpr int mirof_of< T, std::void_t< decltype( T::mi_rof ) > > = T::mi_rof ? 1 : 0;
+
    template< typename T, typename = void >
    struct emsg_of
    {
@@ -383,6 +394,9 @@ namespace vt
       w.kv( "sw", sw_of< Rule > );
       w.kv( "hasmsg", emsg_of< Rule >::has ? 1 : 0 );
       w.str( "emsg", emsg_of< Rule >::get() );
+      w.kv( "mihas", mimsg_of< Rule > != nullptr ? 1 : 0 );
+      w.str( "mimsg", mimsg_of< Rule > != nullptr ? std::string_view( mimsg_of< Rule > ) : std::string_view() );
+      w.kv( "mirof", mirof_of< Rule > );
       w.s( "}\n" );
       w.maybe_flush();
       }
@@ -820,6 +834,32 @@ namespace vt
    {};
    template< typename Rule >
    struct tc_full_uw : tc_impl_uw< Rule, true, 4 >
+   {};
+
+   // must_if controls (C05): the tracing control sits on top of must_if< Errors >::control, so that the failure hook is
+   // logged before must_if turns it into a global failure.  5: Errors without raise_on_failure (a rule raises iff it has a
+   // message), 6: Errors with a selective raise_on_failure.  Both full visibility with unwind().
+   struct Errs1
+   {
+      template< typename Rule >
+      static constexpr const char* message = mimsg_of< Rule >;
+   };
+   struct Errs2
+   {
+      template< typename Rule >
+      static constexpr const char* message = mimsg_of< Rule >;
+      template< typename Rule >
+      static constexpr bool raise_on_failure = ( mirof_of< Rule > == 1 );
+   };
+   template< typename Rule >
+   using mi1_base = typename pegtl::must_if< Errs1, pegtl::normal, false >::template control< Rule >;
+   template< typename Rule >
+   using mi2_base = typename pegtl::must_if< Errs2, pegtl::normal, false >::template control< Rule >;
+   template< typename Rule >
+   struct tc_mi1 : tc_impl_uw< Rule, true, 5, mi1_base >
+   {};
+   template< typename Rule >
+   struct tc_mi2 : tc_impl_uw< Rule, true, 6, mi2_base >
    {};
 
    // ------------------------------------------------------------------ action families
